@@ -17,7 +17,14 @@ mkdir -p "$VERIF/build/bin" "$VERIF/evidence" "$VERIF/replays"
   || { echo "HARNESS-ERROR build rewriter"; cat "$SCR/build.log"; exit 2; }
 "$VERIF/build/bin/rewriter" -repo "$REPO" -hooks "$VERIF/hooks" -out "$SCR/ov" >"$SCR/rewriter.log" 2>&1 \
   || { echo "HARNESS-ERROR rewriter"; cat "$SCR/rewriter.log"; exit 2; }
-( cd "$VERIF/engine" && go build -tags verif -overlay "$SCR/ov/overlay.json" -o "$SCR/vcheck" ./cmd/vcheck ) >"$SCR/build.log" 2>&1 \
+MODFLAG=""
+if [ "$REPO" != "/repo" ]; then
+  # check a scratch worktree instead of /repo: same engine, module replaced by that tree
+  sed "s#=> /repo#=> $REPO#" "$VERIF/engine/go.mod" > "$SCR/go.mod"
+  cp "$VERIF/engine/go.sum" "$SCR/go.sum" 2>/dev/null
+  MODFLAG="-modfile=$SCR/go.mod"
+fi
+( cd "$VERIF/engine" && go build $MODFLAG -tags verif -overlay "$SCR/ov/overlay.json" -o "$SCR/vcheck" ./cmd/vcheck ) >"$SCR/build.log" 2>&1 \
   || { echo "HARNESS-ERROR build vcheck (does /repo compile?)"; cat "$SCR/build.log"; exit 2; }
 "$SCR/vcheck" "$ID" --tier "$TIER" --scratch "$SCR" --overlay "$SCR/ov/overlay.json" --verif "$VERIF" --repo "$REPO" "$@"
 rc=$?
